@@ -188,13 +188,39 @@ PROPS["C03"] = dict(
     floor=dict(quick=1500, thorough=50000), require_counters=["hostile_frames", "handled_data", "handled_acks", "handled_sync", "srcomp_steps"],
     assumptions=["API misuse the documentation forbids (oversized send, bad channel, invalid config) is never generated"])
 
+def MIRI_RUNS(tier):
+    """Small scenarios interpreted by Miri (-Zmiri-tree-borrows, isolation off): UB, layout, leaks, data races.
+    One scenario per process (chunk=1); about 1-4 minutes each, 16 in parallel. Thorough tier only."""
+    if tier == "quick":
+        return []
+    m = dict(flavour="miri", chunk=1, scalable=False, timeout=3000)
+    a = dict(flavour="asan", env={"ASAN_OPTIONS": "halt_on_error=1:abort_on_error=0:detect_leaks=1:exitcode=23"})
+    return [
+        # AddressSanitizer + LeakSanitizer (nightly, -Zsanitizer=address), checking allocator off
+        dict(family="frag", n=4000, params={"prop": "C19", "frag_packets": 60}, **a),
+        dict(family="faulty", n=4000, params={"prop": "C19"}, **a),
+        dict(family="alloc-pair", n=1500, params={"prop": "C19"}, **a),
+        dict(family="hostile-rx", n=64, params={"batch": 10, "frames": 1500}, **a),
+        dict(family="hostile-hc", n=200, params={"batch": 20, "frames": 400}, **a),
+        dict(family="lifecycle", n=600, params={}, **a),
+        dict(family="codec-decode", n=100, params={"batch": 2000}, **a),
+        dict(family="sendsync", n=2, params={}, **m),
+        dict(family="frag-len", n=6, params={"prop": "C19", "first": 1449}, **m),
+        dict(family="faulty", n=6, params={"prop": "C19", "packets": 12, "max_steps": 1500, "fault_s": 2}, **m),
+        dict(family="hostile-rx", n=3, params={"batch": 1, "frames": 25}, **m),
+        dict(family="hostile-hc", n=3, params={"batch": 1, "frames": 120}, **m),
+        dict(family="codec-decode", n=2, params={"batch": 150}, **m),
+        dict(family="lifecycle", n=3, params={"max_clients": 2, "miri": 1}, **m),
+    ]
+
+
 hc_prop("C19",
     lambda tier: [hc("frag", 1500, 50000, tier, "C19", frag_packets=T(tier, 40, 100)),
                   hc("faulty", 1500, 50000, tier, "C19"),
                   hc("alloc-pair", 500, 20000, tier, "C19"),
-                  dict(family="hostile-rx", n=T(tier, 24, 600), params={"batch": 10, "frames": 1500})],
+                  dict(family="hostile-rx", n=T(tier, 24, 600), params={"batch": 10, "frames": 1500})] + MIRI_RUNS(tier),
     GEN + "Every scenario runs under the checking global allocator (layout recorded at alloc, compared at dealloc/realloc; live bytes of calls into uflow counted per scope); at the end both HalfConnections are dropped mid-state (delivered, skipped, partially assembled, resynchronised-away packets). non-trivial: teardown checked and >= 1 reassembled multi-fragment packet freed.",
-    "Allocator-contract monitor on every free in every scenario + leak check at teardown (scoped live bytes return to the pre-construction value). Miri / ASan runs are listed separately in the evidence when the tier includes them.",
+    "Allocator-contract monitor on every free in every scenario + leak check at teardown (scoped live bytes return to the pre-construction value). The thorough tier adds the same families under AddressSanitizer/LeakSanitizer (nightly) and a small subset interpreted by Miri with tree borrows (UB, layout on deallocation, leaks, data races incl. a Send/Sync workload).",
     "checking global allocator (layout match, scoped leak check) over fault-injected executions",
     dict(quick=800, thorough=20000), require=["teardowns_checked", "delivered_multifrag"])
 
@@ -284,6 +310,11 @@ PROPS["C03"]["rule"] += (" ep-hostile: a real Server with an honest bystander cl
                          "frames composed against the server-side connection state, plus spoofed strangers; or a real Client facing a raw hostile server. After the attack the bystander must still be "
                          "connected and delivering, and a fresh client must connect within 30 s.")
 PROPS["C03"]["require_counters"] += ["c03_honest_bystanders_checked", "c03_post_attack_connects_checked", "c03_hostile_server_sessions"]
+_c01_runs = PROPS["C01"]["runs"]
+PROPS["C01"]["runs"] = lambda tier: _c01_runs(tier) + [ep("lifecycle", 300, 10000, tier, "C01"), ep("disconnect", 300, 10000, tier, "C01")]
+PROPS["C01"]["rule"] += (" lifecycle / disconnect (real Client/Server sessions): every packet an application is handed was submitted by the peer on that address pair and is handed over at most once "
+                         "(Event::Receive carries no channel, so order is judged at the HalfConnection level only).")
+PROPS["C01"]["require_counters"] += ["ep_receives_checked"]
 _c11_runs = PROPS["C11"]["runs"]
 PROPS["C11"]["runs"] = lambda tier: _c11_runs(tier) + [ep("ep-recover", 400, 15000, tier, "C11")]
 PROPS["C11"]["rule"] += (" ep-recover: real Client/Server sessions (timeouts 20 s, keepalive 2 s) hit by one finite fault (first handshake ACKs lost, a blackout or loss burst of 0.1..6 s, loss at the start); afterwards the "
